@@ -560,7 +560,7 @@ class IncrementalExecutor(Executor[DeliveryGroupMap]):
         filtered_tasks: list[ExecutionGroup] = []
         for task in tasks:
             if has_nulled_position(task.path):
-                self.settle_abort_result(task.computation.abort(cancellation_reason))
+                self.abort_execution_group(task, cancellation_reason)
             else:
                 filtered_tasks.append(task)
 
@@ -572,6 +572,28 @@ class IncrementalExecutor(Executor[DeliveryGroupMap]):
                 filtered_streams.append(stream)
 
         return Work(groups, filtered_tasks, filtered_streams)
+
+    def abort_execution_group(
+        self, task: ExecutionGroup, reason: BaseException | None = None
+    ) -> None:
+        """Abort an execution group that will not be delivered.
+
+        Aborting has no effect on a computation that has already completed
+        (which happens with early execution), but the work nested in its
+        result will never reach the scheduler, so it is aborted here as well.
+        """
+        computation = task.computation
+        self.settle_abort_result(computation.abort(reason))
+        try:
+            result = computation.result()
+        except (Exception, CancelledError):
+            return  # aborted before completion or failed
+        work = getattr(result, "work", None)
+        if work:
+            for nested_task in work.tasks:
+                self.abort_execution_group(nested_task, reason)
+            for nested_stream in work.streams:
+                self.settle_abort_result(nested_stream.queue.abort(reason))
 
     def settle_abort_result(self, abort_result: AwaitableOrValue[None]) -> None:
         """Settle the asynchronous part of an abort in the background."""
